@@ -1,6 +1,7 @@
 // rewrite: produce instrumented copies of the CURRENT /repo sources for `go build -overlay`.
 // Nothing is written under /repo.  Selector substitution only (go/ast):
 //   mode "clock": time.Now/Until/Since -> vshim.Now/Until/Since                  (package cache)
+//   mode "layout": clock + makeSeed() -> vshim.Seed(), hashString(s, seed) -> vshim.HashString(s, seed)
 //   mode "sched": additionally sync/atomic functions, atomic.Value, sync.Mutex, sync.Cond, sync.NewCond,
 //                 runtime.Gosched -> vshim.*; makeSeed() body -> vshim.Seed()    (cache + internal/xsync)
 // Usage: rewrite <repo> <outdir> <mode> <harnessdir>   -> writes <outdir>/overlay.json
@@ -68,12 +69,20 @@ func main() {
 				}
 				return true
 			})
-			if mode == "sched" {
+			if mode == "sched" || mode == "layout" {
 				for _, d := range f.Decls {
 					fd, ok := d.(*ast.FuncDecl)
 					if ok && fd.Name.Name == "makeSeed" && fd.Recv == nil {
 						fd.Body = &ast.BlockStmt{List: []ast.Stmt{&ast.ReturnStmt{Results: []ast.Expr{
 							&ast.CallExpr{Fun: &ast.SelectorExpr{X: ast.NewIdent("vshim"), Sel: ast.NewIdent("Seed")}}}}}}
+						changed = true
+					}
+					// deterministic, model-computable string hash (the real hashString is exercised by the
+					// black-box runs, which are built without this substitution)
+					if ok && fd.Name.Name == "hashString" && fd.Recv == nil && len(fd.Type.Params.List) == 2 {
+						fd.Body = &ast.BlockStmt{List: []ast.Stmt{&ast.ReturnStmt{Results: []ast.Expr{
+							&ast.CallExpr{Fun: &ast.SelectorExpr{X: ast.NewIdent("vshim"), Sel: ast.NewIdent("HashString")},
+								Args: []ast.Expr{ast.NewIdent(fd.Type.Params.List[0].Names[0].Name), ast.NewIdent(fd.Type.Params.List[1].Names[0].Name)}}}}}}
 						changed = true
 					}
 				}
